@@ -32,6 +32,10 @@ func ParseVector(vector string) (*CVSS40, error) {
 	if !strings.HasPrefix(vector, header) {
 		return nil, ErrInvalidCVSSHeader
 	}
+	// The header must be followed by the separator (or by nothing: the vector is then too short).
+	if len(vector) > len(header) && vector[len(header)] != '/' {
+		return nil, ErrInvalidCVSSHeader
+	}
 	vector = vector[len(header):]
 
 	// Allocate CVSS v4.0 object
